@@ -92,6 +92,7 @@ type wbuild struct {
 	dirInWay map[string]bool
 	diskBefore map[string]Listing
 	toggled    map[string]bool
+	force      []string
 	fs       *faultState
 	focus    string
 	load     string
